@@ -72,7 +72,7 @@ LEVEL["C18"] = dict(technique=T, text="The design layer is a function of (state,
 LEVEL["C12"] = dict(technique=T, text="15 golden images (5 key types x 3 histories with deletes, large slots and non-empty free lists) written by a build of the pinned release "
     "4b82afd are committed with their contents; the trace starts from that contract state (event load): the current build must open each image with "
     "identical contents (C12.content), leave it byte-identical when only read, keep every other conjunct (C05/C06/C09) while it is updated further, and "
-    "re-executing the stored history must reproduce the released files byte for byte (C12.stable). Placement: every decoded state of every check is judged "
+    "re-executing the stored history reproduces the released files byte for byte (reported as SPEC-DRIFT if not: more than the property demands). Placement: every decoded state of every check is judged "
     "with the placement hash re-implemented in the decoder and recomputed inside TLC (AbyHash on 16-bit limbs) for all keys <= 40 bytes; header layout and "
     "/8 scaling are what the decoder needs to find the slots (C12.header, C12.placement).", note=TRUST + " Golden images were produced once by bin/mkgolden from a worktree of the pinned commit.")
 NA = {}
